@@ -18,7 +18,7 @@ VARY_ARGFORM = True  # integer call arguments also arrive as numpy integer scala
 GUARD_KERNELS = True
 SHRINK_LISTS = ("ops",)
 SHRINK_MIN = {"nsblk": 4, "nsub": 1, "nchans": 1, "gulp": 1, "nsamps": 1}
-SHRINK_SIMPLE = {"knobs": None, "earlier_same_path": False, "gzip": False, "argform": "int", "bw_cards": 0}
+SHRINK_SIMPLE = {"knobs": None, "earlier_same_path": False, "gzip": False, "argform": "int", "bw_cards": 0, "odd_cards": 0}
 LAYOUTS = [("AABBCRCI", 4), ("AABBCRCI", 4), ("STOKE", 4), ("STOKE", 4), ("AABB", 2), ("INTEN", 1)]
 
 
@@ -67,7 +67,7 @@ def generate(rng, tier) -> dict:
             "dseed": rng.randrange(1 << 30), "ops": ops, "earlier_same_path": rng.random() < 0.25, "gzip": rng.random() < 0.2,
             # header cards written by other software: the SIGN of CHAN_BW (bit 0) / OBSBW (bit 1) does not follow the
             # order of the DAT_FREQ table (a width stored as a positive number whatever the band sense)
-            "bw_cards": rng.choice([0, 0, 0, 1, 2, 3]), "per_row": rng.random() < 0.5}
+            "bw_cards": rng.choice([0, 0, 0, 1, 2, 3]), "per_row": rng.random() < 0.5, "odd_cards": rng.choice([0, 0, 1, 2, 3, 4, 5, 6])}
 
 
 def fixup(sc):
@@ -132,6 +132,15 @@ def write_psrfits(path, sc):
                      DEC="-00:30:00.0", STT_IMJD=58000, STT_SMJD=100, STT_OFFS=0.25).items():
         h[k] = v
     h["DATE-OBS"] = "2020-01-01T00:00:00"
+    # optional primary cards as other backends write them: absent, numeric, the '*' placeholder of an undefined value,
+    # a quoted number (legal PSRFITS all the same; the file reads in full either way)
+    cards = int(sc.get("odd_cards") or 0)
+    if cards:
+        odd = {1: "*", 2: "7", 3: 3, 4: "", 5: 56.712}
+        for j, key in enumerate(("IBEAM", "CHAN_DM", "NBEAM", "SCANLEN", "BMAJ", "BMIN", "BPA", "PNT_ID")):
+            v = odd.get((cards + 3 * j) % 7)
+            if v is not None:
+                h[key] = v
     bitfact = 2 if nbits == 4 else 1
     dd = d.reshape(nsub, nsblk, npol, nchans)
     darr = pack4(np.ascontiguousarray(dd).ravel()).reshape(nsub, -1) if nbits == 4 else dd.reshape(nsub, -1)
@@ -250,6 +259,23 @@ def execute(sc, ctx) -> None:
                 raise mk("header", f"not-a-plain-number-{key}", f"{key} = {v!r} ({type(v).__name__})")
             if abs(float(v) - want) > 1e-9 * max(1.0, abs(want)):
                 raise mk("header", f"inconsistent-{key}", f"{key} = {v!r}, the data say {want}")
+        # every field the Header declares as a number is a plain number (not a card's placeholder string, not None, not a Quantity)
+        try:
+            import attrs as _attrs
+
+            for fld in _attrs.fields(type(hdr)):
+                ann = str(fld.type)
+                if ann in ("int", "float", "<class 'int'>", "<class 'float'>"):
+                    v = getattr(hdr, fld.name)
+                    if isinstance(v, bool) or not isinstance(v, (int, float, np.integer, np.floating)) or type(v).__module__.startswith("astropy"):
+                        raise mk("header", f"not-a-plain-number-{fld.name}", f"{fld.name} = {v!r} ({type(v).__name__})")
+            ctx.probe("all-numeric-header-fields-checked")
+        except Violation:
+            raise
+        except Exception as e:  # noqa: BLE001 - a Header that is no attrs class: nothing to enumerate
+            ctx.observations["header-fields-not-enumerable:" + type(e).__name__] += 1
+        if sc.get("odd_cards"):
+            ctx.probe("primary-cards-with-placeholder-values")
         fs = _FS()
         fs.samples, fs.spec, fs.nsamples = W, {"nchans": nchans, "nsamps": [nsblk] * sc["nsub"]}, N
         twin = None
